@@ -606,7 +606,10 @@ def subsets_of(f, m, rnd):
     if f['subsets'] == 'all':
         for r in range(0, n):
             for c in itertools.combinations(codes, r):
-                yield list(c)
+                c = list(c)
+                if len(c) > 1 and rnd.random() < 0.5:
+                    rnd.shuffle(c)          # the removal list need not be in file order
+                yield c
         return
     for j in range(int(f['subsets'])):
         if n == 1:
